@@ -51,6 +51,11 @@ Fixpoint wf_term (env:nenv) (pv:list N) (t:mmterm) : bool :=
             end)
   end.
 
+(** well-formed, and the notation-free form mentions only variables with a [$f] (implied by the other
+    conditions; kept explicit because the proof uses it directly) *)
+Definition term_ok (env:nenv) (pv:list N) (t:mmterm) : bool :=
+  wf_term env pv t && forallb (fun v => memN v pv) (tvars (expand env t)).
+
 Definition env_ok (env:nenv) : bool :=
   forallb (fun e => negb (N.eqb (fst e) c_imp) && negb (N.eqb (fst e) c_app)
                     && forallb (fun v => memN v (fst (snd e))) (tvars (snd (snd e)))) env
@@ -106,16 +111,16 @@ Definition axiom_ok (d:db) (a:assertion) : bool :=
   | KNotation => true
   | KCtor =>
       match a_ess a with [] => true | _ => false end
-      && single_term (a_stmt a) && wf_term env pv (stmt_term (a_stmt a))
+      && single_term (a_stmt a) && term_ok env pv (stmt_term (a_stmt a))
       && match a_label a with
          | LImpIsPattern => binary_ctor_ok d c_imp a
          | LAppIsPattern => binary_ctor_ok d c_app a
          | _ => true
          end
   | KAxiom =>
-      single_term (a_stmt a) && wf_term env pv (stmt_term (a_stmt a))
+      single_term (a_stmt a) && term_ok env pv (stmt_term (a_stmt a))
       && forallb (fun e => N.eqb (fst (snd e)) tc_proved && single_term (snd e)
-                           && wf_term env pv (stmt_term (snd e))) (a_ess a)
+                           && term_ok env pv (stmt_term (snd e))) (a_ess a)
   | KRule =>
       match a_label a with
       | LProp1 => prop1_ok d a
@@ -139,7 +144,7 @@ Definition target_ok (d:db) (target:label) : bool :=
   | Some (a, pl, _) =>
       match a_ess a with [] => true | _ => false end
       && N.eqb (fst (a_stmt a)) tc_proved && single_term (a_stmt a)
-      && wf_term (env_of d) (float_vars d) (stmt_term (a_stmt a))
+      && term_ok (env_of d) (float_vars d) (stmt_term (a_stmt a))
       && forallb (label_ok d) (conv_labels d a pl)
   | None => false
   end.
